@@ -77,8 +77,26 @@ extern "C" void h_bfd() {
     unsigned shrink_at = nondet_uchar(); VP_ASSUME(shrink_at <= NSTEP);
 #endif
          // after which step the application calls the housekeeping shrink of both queues (NSTEP: never)
+#ifdef RXONLY
+    VP_ASSERT(bfd.enable(), "enable");
+#endif
+#ifdef RXSTATE   // receive queue starts in an ARBITRARY valid state of a small capacity (read index r <= write index w <= RXSTATE) that agrees with the ghost
+    {            // stream: w bytes were delivered so far, the callback has consumed r of them. Growth / compaction with a non-zero read index is then one step away.
+        unsigned long r0 = nondet_ulong(), w0 = nondet_ulong(); VP_ASSUME(r0 <= w0 && w0 <= RXSTATE);
+        util::Buffer st(RXSTATE);
+        for (unsigned long i = 0; i < w0; i++) { peer[n_peer++] = next_rx++; }
+        if (w0) st.append(peer, w0);
+        st.hasRead(r0);
+        if (r0 == w0) VP_ASSUME(r0 == 0);                                     // (consuming everything resets both indices)
+        bfd.recv_buff_.swap(st);
+        n_deliv = (int)w0; n_consumed = (int)r0;
+    }
+#endif
     for (int k = 0; k < NSTEP; k++) {
         unsigned op = nondet_uchar(); VP_ASSUME(op <= 5);
+#ifdef RXONLY                                                       // receive-side scripts only (longer scripts stay cheap): readable / peer writes / peer closes
+        VP_ASSUME(op >= 3);
+#endif
         if (op == 0) { unsigned n = nondet_uchar(); VP_ASSUME(n >= 1 && n <= 3); unsigned char d[3];
                        for (unsigned i = 0; i < n; i++) { d[i] = next_tx++; }
                        VP_ASSERT(bfd.send(d, n), "send accepted"); for (unsigned i = 0; i < n && n_sent < MAXS; i++) sent[n_sent++] = d[i]; }
